@@ -21,7 +21,7 @@ def make_loop(urwid, name):
 
         io = IOLoop(make_current=False)   # owns a fresh asyncio loop
         el = urwid.TornadoEventLoop(io)
-        extra.append(lambda: io.close(all_fds=True))
+        extra.append(lambda: io.close(all_fds=False))   # (all_fds=True would also close descriptors that belong to the screen)
     elif name == "twisted":
         from twisted.internet.selectreactor import SelectReactor
 
